@@ -34,6 +34,8 @@ def cases(tier, seed):
         for ps in (1, 2):
             for cap in (1, 2, 16):
                 cfgs.append((route, ps, cap, False, 'dfs', 4000 if q else 60000))
+    cfgs.append(('segy-heuristic', 1, 1, False, 'dfs', 4000))
+    cfgs.append(('segy-heuristic', 2, 2, False, 'random', 40 if q else 1000))
     for route in ('numpy', 'segy', '2d'):
         for cap in (1, 2):
             cfgs.append((route, 2, cap, True, 'dfs', 3000 if q else 60000))       # per-block layout: several queue items per plane set
@@ -57,6 +59,7 @@ def setup(case, sc):
     route, ps = case['route'], case['ps']
     rate = 8
     if route == '2d':
+        det2 = 'exhaustive'
         bs = (1, 8, -1) if case['blocks'] else (1, 4, -1)
         b1 = bs[1]
         nT = {1: b1 - 1, 2: b1 + 1, 3: 2 * b1 + 1}[ps]
@@ -64,7 +67,7 @@ def setup(case, sc):
         src = {'geom': '2d', 'shape': [nT, nZ], 'il': [1, 1], 'xl': [1, 1], 'dt': 4000, 't0': 0, 'fmt': 5, 'ext': 0, 'cubeseed': 2, 'valkind': 'smooth',
                'hdr': {'seed': 4, 'nfields': 2, 'inside': True}, 'how2d': 'nonumbers'}
         s = conv.build_source(src, sc)
-        return (lambda out: conv.convert_segy(s['path'], out, rate, bs)), s, rate, bs
+        return (lambda out: conv.convert_segy(s['path'], out, rate, bs, detection=det2)), s, rate, bs
     bs = (8, 8, -1) if case['blocks'] else (4, 4, -1)
     b0 = bs[0]
     nI = {1: b0 - 1, 2: b0 + 1, 3: 2 * b0 + 1}[ps]
@@ -75,7 +78,8 @@ def setup(case, sc):
     src = {'geom': '3d', 'shape': [nI, nX, nZ], 'il': [1, 1], 'xl': [1, 1], 'dt': 4000, 't0': 0, 'fmt': 5, 'ext': 0, 'cubeseed': 2, 'valkind': 'smooth',
            'hdr': {'seed': 4, 'nfields': 2, 'inside': True}, 'sorting': 2}
     s = conv.build_source(src, sc)
-    det = 'thorough' if route == 'segy-thorough' else 'heuristic'
+    # 'exhaustive' drives the pipeline exactly like 'heuristic' (no in-place table patch) but skips the slow first/last-trace analysis
+    det = 'thorough' if route == 'segy-thorough' else 'heuristic' if route == 'segy-heuristic' else 'exhaustive'
     return (lambda out: conv.convert_segy(s['path'], out, rate, bs, reduce_iops=route == 'segy-iops', detection=det)), s, rate, bs
 
 
